@@ -60,22 +60,20 @@ const (
 	mCheckRefresh                      // health checks: ServiceName/ServiceTags re-copied from the service
 	mGatewayStamp                      // gateway-services rows: RaftIndex (and ServiceKind of wildcard rows) rebuilt from the config entry
 	mTopologyStamp                     // mesh-topology rows: stamps, references and left-over rows depend on the write order
-	mPeeringIndex                      // index rows "peering"/"peering-trust-bundles": overwritten by the last restored row
-	mDialerSecret                      // peering-secret-uuids: a dialing peer's stream secret is added by the restore
+	mOrphanSecret                      // peering-secret-uuids: the secrets of a row that outlived its peering are recorded by the restore
 	mStaleKindName                     // kind-service-names: rows no registered instance backs any more are not rebuilt
 	mWildcardUnbacked                  // gateway-services / mesh-topology: which names a wildcard gateway maps depends on the write order
-	mAll           = mUsage | mCheckRefresh | mGatewayStamp | mTopologyStamp | mPeeringIndex | mDialerSecret | mStaleKindName | mWildcardUnbacked
+	mAll           = mUsage | mCheckRefresh | mGatewayStamp | mTopologyStamp | mOrphanSecret | mStaleKindName | mWildcardUnbacked
 )
 
-var maskList = []maskSet{mUsage, mCheckRefresh, mTopologyStamp, mGatewayStamp, mPeeringIndex, mDialerSecret, mStaleKindName, mWildcardUnbacked}
+var maskList = []maskSet{mUsage, mCheckRefresh, mTopologyStamp, mGatewayStamp, mOrphanSecret, mStaleKindName, mWildcardUnbacked}
 
 var maskKind = map[maskSet]string{
 	mUsage:         "usage-row-index-after-restore",
 	mCheckRefresh:  "check-service-fields-refreshed-by-restore",
 	mGatewayStamp:  "gateway-services-rows-restamped-by-restore",
 	mTopologyStamp: "mesh-topology-rows-depend-on-write-order",
-	mPeeringIndex:  "peering-index-rows-after-restore",
-	mDialerSecret:  "dialer-secret-uuid-added-by-restore",
+	mOrphanSecret:  "orphan-peering-secret-uuid-added-by-restore",
 	mStaleKindName: "stale-kind-service-name-dropped-by-restore",
 	mWildcardUnbacked: "wildcard-gateway-mappings-depend-on-write-order",
 }
@@ -83,7 +81,7 @@ var maskKind = map[maskSet]string{
 // tableMask: which deviation a strict-only difference in a table belongs to.
 var tableMask = map[string]maskSet{
 	"usage": mUsage, "checks": mCheckRefresh, "gateway-services": mGatewayStamp, "mesh-topology": mTopologyStamp,
-	"index": mPeeringIndex, "peering-secret-uuids": mDialerSecret, "kind-service-names": mStaleKindName,
+	"peering-secret-uuids": mOrphanSecret, "kind-service-names": mStaleKindName,
 }
 
 // indexRowMask: index-table rows whose value a known deviation changes (directly, or later in a
@@ -91,8 +89,6 @@ var tableMask = map[string]maskSet{
 // registration would write is not written again, so the table's index row is not bumped).
 func indexRowMask(key string) maskSet {
 	switch {
-	case key == "peering" || key == "peering-trust-bundles":
-		return mPeeringIndex
 	case strings.HasPrefix(key, "kind_service_names."):
 		return mStaleKindName
 	case key == "gateway-services" || key == "mesh-topology":
@@ -509,22 +505,22 @@ func dumpStore(st *state.Store) *fullDump {
 		d.lenient[table] = append(d.lenient[table], lb.String())
 		return true
 	})
-	// lenient: only the UUIDs of secrets held for peerings this cluster ACCEPTED count (a restore
-	// also records a dialing peer's active stream secret, which the online path never does)
+	// lenient: the UUIDs of a secrets row that outlived its peering (a write in state DELETING that
+	// carried secrets, then PeeringDelete: nothing deletes the row) do not count: without the
+	// peering row the restorer cannot know whether the peer dialed, and records them
 	for _, p := range secretRows {
-		if dial, known := dialers[p.PeerID]; dial || !known {
-			// a dialing peer's secrets, or secrets whose peering row is gone (whether it dialed is no longer known)
+		if _, known := dialers[p.PeerID]; known {
 			continue
 		}
 		for _, id := range []string{p.GetEstablishment().GetSecretID(), p.GetStream().GetPendingSecretID(), p.GetStream().GetActiveSecretID()} {
 			if id != "" {
-				acceptorSecrets[strconv.Quote(id)] = true
+				acceptorSecrets[strconv.Quote(id)] = true // here: ids of orphan rows
 			}
 		}
 	}
 	var keep []string
 	for _, r := range d.lenient["peering-secret-uuids"] {
-		if acceptorSecrets[r] {
+		if !acceptorSecrets[r] {
 			keep = append(keep, r)
 		}
 	}
@@ -647,8 +643,6 @@ func idxMask(name string, relax bool) maskSet {
 		return mGatewayStamp
 	case "ServiceTopology":
 		return mGatewayStamp | mTopologyStamp
-	case "PeeringList", "PeeringTrustBundleList":
-		return mPeeringIndex
 	case "ServiceNamesOfKind":
 		return mStaleKindName
 	}
